@@ -7,6 +7,7 @@ here: the *shadow program* (one blanket impl of a private marker trait per user 
 itself say which blocks apply to which probe."""
 
 import copy
+import re
 import itertools
 
 from .gen_pat import pr, subst, params_of
@@ -191,6 +192,8 @@ class Plan:
             if m.patch.get("drop_item") == name:
                 continue
             vis = m.vis.get(name, "")
+            if m.patch.get("vis_flip") == name:
+                vis = "" if vis else "pub "      # C14: one item with another visibility than in the sibling blocks
             tag = f"b{bi}.{name}" if m.tag_as is None else f"{m.tag_as}.{name}"
             if kind == "const":
                 out.append(f'{vis}const {name}: &\'static str = "{tag}";')
@@ -272,6 +275,11 @@ class Plan:
             out.append(f"impl{'<' + ', '.join(lts) + '>' if lts else ''} {d.name}{ta} for {ty} {{ {body} }}")
         for plain, ty in self.plain:
             if plain == "Plain0" and (ty in ("u8", "u16", "String") or ty.startswith("(")):
+                continue
+            if plain == "Clone":
+                # std implements Clone structurally; only the local leaf types need an impl
+                if re.fullmatch(r"[A-Z][A-Za-z0-9]*", ty) and ty not in ("String",):
+                    out.append(f"impl Clone for {ty} {{ fn clone(&self) -> Self {{ loop {{}} }} }}")
                 continue
             out.append(f"impl {plain} for {ty} {{}}")
         out.append(PROBE_MACROS)
@@ -800,6 +808,76 @@ class PlanGen:
         self.populate(plan)
         return plan
 
+    def wildcard_prefix_plan(self):
+        """directed shape (seeded changes C11e / C05e): a family with two or three keys in which the FIRST one or two members
+        only name one key (bound without binding: a wildcard row entry) while later members are told apart by that key alone.
+        Pruning a key 'nobody binds' is only correct once all rows are known; the first block's unbound key must stay a key."""
+        r = self.r
+        plan = Plan()
+        plan.dtraits = [DTrait("D0"), DTrait("D1", assocs=("G", "H"))]
+        plan.items = [("const", "NAME", False)] + ([("fn", "tag", False)] if r.random() < 0.5 else [])
+        two = r.random() < 0.6
+        if two:
+            hdr, n = self.pick([(("tuple", [("tp", 0), ("tp", 1)]), 2), (("ctor", "W2", [("aty", ("tp", 0)), ("aty", ("tp", 1))]), 2)])
+            keys = [Key(("tp", 0), 0, [], "G"), Key(("tp", 1), self.pick([0, 1]), [], "G")]
+        else:
+            hdr, n = self.pick([(("tp", 0), 1), (("ctor", "W1", [("aty", ("tp", 0))]), 1)])
+            keys = [Key(("tp", 0), 0, [], "G"), Key(("tp", 0), 1, [], self.pick(["G", "H"]))]
+        wk = self.pick([0, 1])            # the key the leading members leave unbound
+        ok = 1 - wk
+        marks = list(MARKERS)
+        r.shuffle(marks)
+        members = []
+        nlead = self.pick([1, 2, 2])
+        for i in range(nlead):
+            row = [None, None]
+            row[ok] = leaf(marks[i])
+            members.append(Member({}, row, n))
+        # later members: same binding on the other key, distinguished only by the key the leading members left unbound
+        shared = leaf(marks[nlead])
+        for j in range(2):
+            row = [None, None]
+            row[ok] = shared
+            row[wk] = leaf(marks[(nlead + 1 + j) % len(marks)])
+            members.append(Member({}, row, n))
+        for m in members:
+            m.names = self.names(n)
+            m.inline = {ki: r.random() < 0.6 for ki in range(2)}
+        if r.random() < 0.3:
+            # the wildcard members last instead (README order): control
+            members = members[nlead:] + members[:nlead]
+        plan.families = [Family(hdr, [], n, keys, members)]
+        plan.notes["directed"] = "leading members leave a key unbound"
+        plan.notes["keep_plain"] = True
+        self.populate(plan)
+        return plan
+
+    def interleaved_keys_plan(self):
+        """directed shape (seeded change C02e): a family over (T, U) whose key order interleaves the bounded types —
+        (T, D0), (U, D0), (T, D1) — with rows that are NOT symmetric under any regrouping of the keys by bounded type: the main
+        impl must pass its projections to the helper trait in exactly the order the helper impls use"""
+        r = self.r
+        plan = Plan()
+        plan.dtraits = [DTrait("D0"), DTrait("D1", assocs=("G", "H"))]
+        plan.items = [("const", "NAME", False)] + ([("fn", "tag", False)] if r.random() < 0.5 else [])
+        hdr = self.pick([("tuple", [("tp", 0), ("tp", 1)]), ("ctor", "W2", [("aty", ("tp", 0)), ("aty", ("tp", 1))])])
+        a, b = self.pick([(0, 1), (1, 0)])
+        keys = [Key(("tp", a), 0, [], "G"), Key(("tp", b), 0, [], "G"), Key(("tp", a), 1, [], self.pick(["G", "H"]))]
+        rows = [["GA", "GA", "GB"], ["GA", "GB", "GA"], ["GB", "GA", "GA"], ["GA", "GB", "GB"]]
+        r.shuffle(rows)
+        members = []
+        for row in rows[: self.pick([2, 3, 3])]:
+            m = Member({}, [leaf(x) for x in row], 2)
+            m.names = self.names(2)
+            # the third bound in the where-clause so that the key order of the first block is (a,D0), (b,D0), (a,D1)
+            m.inline = {0: True, 1: True, 2: False}
+            members.append(m)
+        plan.families = [Family(hdr, [], 2, keys, members)]
+        plan.notes["directed"] = "key order interleaves the bounded types"
+        plan.notes["keep_plain"] = True
+        self.populate(plan)
+        return plan
+
     def populate(self, plan, per_member=1):
         plan.world, plan.plain, plan.probes = [], [], []
         for fi, f in enumerate(plan.families):
@@ -1207,11 +1285,19 @@ class PlanGen:
             if r.random() < 0.3:
                 gens.append(("lt", "'b", "'a"))
         tp_bounds = []
+        where_bounds = []
         for i in range(ntp):
-            b = self.pick(["", "", "Plain0"])
+            b = self.pick(["", "", "Plain0", "Clone"])
             dflt = "u8" if (i == ntp - 1 and not has_const and r.random() < 0.3) else None
-            gens.append(("ty", f"P{i}", b, dflt))
+            if b == "Clone" and r.random() < 0.6:
+                # the bound in the trait's where-clause instead of inline
+                gens.append(("ty", f"P{i}", "", dflt))
+                where_bounds.append(f"P{i}: Clone")
+            else:
+                gens.append(("ty", f"P{i}", b, dflt))
             tp_bounds.append(b)
+        if where_bounds:
+            plan.trait_where = " where " + ", ".join(where_bounds)
         if has_const:
             gens.append(("const", "N", "usize", None))
         plan.trait_generics = gens
@@ -1397,6 +1483,9 @@ class PlanGen:
             if use_d7 and self_ty[0] == "ctor" and self_ty[1] == "Box" and p == 0:
                 bounded = self_ty          # D7 shape: the key bounds Box<T>, T itself is only relaxed
             keys.append(Key(bounded, dt, [], self.pick(plan.dtraits[dt].assocs)))
+            if len(plan.dtraits) > 1 and r.random() < 0.3:
+                # the same (possibly relaxed) parameter is a dispatch key through two different dispatch traits (seeded change C15e)
+                keys.append(Key(bounded, 1 - dt, [], self.pick(plan.dtraits[1 - dt].assocs)))
             if r.random() < 0.25:
                 break
         members, rows = [], []
@@ -1464,6 +1553,7 @@ class PlanGen:
         has_const = r.random() < 0.35
         has_lt = r.random() < 0.45
         two_lt = has_lt and r.random() < 0.5
+        lt_outlives = two_lt and r.random() < 0.4      # `impl<'a, 'b: 'a, ..>` in every block (the struct does not imply it)
         const_first = has_const and r.random() < 0.5       # `Wr<const N: usize, A0, ..>`: the const argument precedes the type arguments
         const_param = has_const and r.random() < 0.5       # the blocks are generic over it (`impl<const X: usize, ..> Wr<{ X }, ..>`)
         cdecl = ["const N: usize"] if has_const else []
@@ -1526,7 +1616,7 @@ class PlanGen:
                 if r.random() < 0.5:
                     r.shuffle(m.decl_order)
                 m.inline = {ki: r.random() < 0.6 for ki in range(len(keys))}
-                m.lifetimes = (["'a"] if has_lt else []) + (["'b"] if two_lt else [])
+                m.lifetimes = (["'a"] if has_lt else []) + (["'b" + (": 'a" if lt_outlives else "")] if two_lt else [])
                 if two_lt and r.random() < 0.5:
                     m.lifetimes.reverse()
                 members.append(m)
